@@ -165,6 +165,8 @@ def handle (line : String) : String :=
   | "spar" :: _ => "skip"
   | "tpar" :: _ => "skip"
   | "sresp" :: _ => "skip"
+  | "fbt" :: _ => "skip"
+  | "splan" :: _ => "skip"
   | _ => "bad-op"
 
 def main : IO Unit := runDriver handle
